@@ -580,6 +580,16 @@ def query_all(m, x):
             out[q] = hexarr(getattr(m, q)(x))
         except BaseException as ex:  # noqa
             out[q] = "exc:" + exc_name(ex)
+    if hasattr(m, "cdf") and np.ndim(x) == 1:
+        # the quantile / cdf pair on the array route and with one float for all elements (sweep class 1: use - change - use again)
+        units = np.array([(5 + 7 * j) % 29 / 32.0 + 1 / 64.0 for j in range(len(x))])
+        for q, f in (("cdf", lambda: m.cdf(x)), ("value_for", lambda: m.value_for(units)),
+                     ("value_for_float", lambda: m.value_for(0.25)), ("ppf", lambda: m.ppf(units)),
+                     ("cdf_value_for", lambda: m.cdf(m.value_for(units)))):
+            try:
+                out[q] = hexarr(f())
+            except BaseException as ex:  # noqa
+                out[q] = "exc:" + exc_name(ex)
     try:
         out["check_valid"] = hexarr(m.check_valid())
     except BaseException as ex:  # noqa
